@@ -266,6 +266,17 @@ def rule_R1_R3(text, fired):
                 while j < n and not (toks[j].kind == 'p' and toks[j].text == ';'):
                     j += 1
                 fired.add('R1'); k = j + 1; continue
+        if t.kind == 'id' and t.text == 'anyhow' and k + 5 < n and toks[k + 1].text == ':' and toks[k + 2].text == ':' and toks[k + 3].text == 'ensure' and toks[k + 4].text == '!':
+            ko = next_code(toks, k + 4)
+            if ko < n and toks[ko].text == '(':
+                kc = match_close(toks, ko)
+                args = split_top_commas(toks[ko + 1:kc])
+                if len(args) == 2:
+                    # R3b: anyhow::ensure!(cond, err)  =>  if !(cond) { return Err((err).into()); }   (what the macro expands to)
+                    fired.add('R3b')
+                    out.append('if !(' + text_of(args[0]).strip() + ') { return Err((' + text_of(args[1]).strip() + ').into()); }')
+                    k = kc + 1
+                    continue
         if t.kind == 'id' and k + 1 < n:
             kn = next_code(toks, k)
             if kn < n and toks[kn].kind == 'p' and toks[kn].text == '!' and t.text in (PANIC_MACROS | ASSERT_MACROS | ASSERT_EQ_MACROS | ASSERT_NE_MACROS):
@@ -345,3 +356,68 @@ def find_stmt(body, literal, which=0):
             return None
         start = pos + 1
     return idx[pos], idx[pos + len(lit) - 1] + 1
+
+
+def extract_item(repo, relpath, kind, name):
+    """copy a `struct`/`enum` item verbatim (R1: attributes, derives and docs dropped)"""
+    path = os.path.join(repo, relpath)
+    try:
+        src = open(path).read()
+    except OSError as e:
+        raise ExtractError(f'cannot read {relpath}: {e}')
+    toks = lex(src)
+    for k, t in enumerate(toks):
+        if t.kind == 'id' and t.text == kind:
+            kn = next_code(toks, k)
+            if kn < len(toks) and toks[kn].kind == 'id' and toks[kn].text == name:
+                j = kn
+                while j < len(toks) and not (toks[j].kind == 'p' and toks[j].text in '{;('):
+                    j += 1
+                if j >= len(toks):
+                    break
+                if toks[j].text == ';':
+                    end = toks[j].end
+                else:
+                    c = match_close(toks, j)
+                    end = toks[c].end
+                    if toks[j].text == '(':
+                        n2 = next_code(toks, c)
+                        if n2 < len(toks) and toks[n2].text == ';':
+                            end = toks[n2].end
+                s0 = k
+                p = prev_code(toks, s0)
+                if p >= 0 and toks[p].kind == 'id' and toks[p].text == 'pub':
+                    s0 = p
+                text = src[toks[s0].start:end]
+                fired = set()
+                text = rule_R1_R3(text, fired)
+                # drop remaining attributes inside the item (e.g. #[derive], #[repr])
+                text = re.sub(r'#\[[^\]]*\]\s*', '', text)
+                sha = hashlib.sha256(src[toks[s0].start:end].encode()).hexdigest()[:16]
+                return text, src.count('\n', 0, toks[s0].start) + 1, sha
+    raise ExtractError(f'{kind} `{name}` not found in {relpath}')
+
+def name_return(sig, name):
+    """`-> T` => `-> (name: T)` (Verus needs a named return value to state postconditions; ghost naming only)"""
+    toks = lex(sig)
+    depth = 0
+    arrow = None
+    for k, t in enumerate(toks):
+        if t.kind == 'p':
+            if t.text in '([': depth += 1
+            elif t.text in ')]': depth -= 1
+            elif t.text == '-' and depth == 0 and k + 1 < len(toks) and toks[k + 1].text == '>':
+                arrow = k
+    if arrow is None:
+        return sig
+    # type runs until a top-level `where` or the end
+    end = len(sig)
+    depth = 0
+    for k in range(arrow + 2, len(toks)):
+        t = toks[k]
+        if t.kind == 'p' and t.text in '([<': depth += 1
+        elif t.kind == 'p' and t.text in ')]>': depth -= 1
+        elif t.kind == 'id' and t.text == 'where' and depth <= 0:
+            end = t.start; break
+    ty = sig[toks[arrow + 1].end:end].strip()
+    return sig[:toks[arrow].start] + f'-> ({name}: {ty})\n' + sig[end:]
